@@ -181,7 +181,7 @@ func Open(fileName string, opts *Options) (*AppendableFile, error) {
 		r := bufio.NewReader(f)
 
 		mLenBs := make([]byte, 4)
-		_, err := r.Read(mLenBs)
+		_, err := io.ReadFull(r, mLenBs)
 		if err != nil {
 			return nil, ErrCorruptedMetadata
 		}
@@ -198,7 +198,7 @@ func Open(fileName string, opts *Options) (*AppendableFile, error) {
 		}
 
 		mBs := make([]byte, mLen)
-		_, err = r.Read(mBs)
+		_, err = io.ReadFull(r, mBs)
 		if err != nil {
 			return nil, ErrCorruptedMetadata
 		}
